@@ -144,7 +144,7 @@ def run(ctx):
     for i, sp in enumerate(specs):
         shards[i % nshard].append([i, sp])
     tmpd = tempfile.mkdtemp(prefix="c04_")
-    results = ctx.impl_par("c04_run.py", [{"specs": s, "out": os.path.join(tmpd, "run_%d.json" % i), "label_budget": 25 if quick else 60, "scale_every": 1}
+    results = ctx.impl_par("c04_run.py", [{"specs": s, "out": os.path.join(tmpd, "run_%d.json" % i), "label_budget": 25 if quick else 60, "scale_every": 1, "fault_every": 3 if quick else 2}
                                           for i, s in enumerate(shards)],
                            timeout=160 if quick else 1300, par=nshard)
     results = [(rc, load_file(res), out) for rc, res, out in results]
@@ -175,6 +175,8 @@ def run(ctx):
     for _ in range(24 if quick else 400):
         vspecs.append({"seed": ctx.rng.randrange(1, 2 ** 31), "nsite": ctx.rng.randint(2, 4 if quick else 5), "qn": ctx.rng.choice([1, 2]),
                        "kind": "mps", "recipe": ctx.rng.choice(["random", "add", "product"]), "complex": ctx.rng.random() < 0.5, "m": 3})
+        if len(vspecs) % 4 == 1:       # every fourth case with spilling to disk and a failing numpy.save
+            vspecs[-1]["fault"] = ctx.rng.choice([0, 2, 5, 9, 10 ** 9])
         if len(vspecs) % 2 == 0:       # every second case with the norms of state and operator at extreme scales
             vspecs[-1]["scale"] = [ctx.rng.choice([1e-30, 1e-12, 1e-9, 1e-6, 1e6, 1e12, 1e30]), ctx.rng.choice([1e-6, 1.0, 1e6])]
     # hard cases: zero-percent sweeps from the start, start guess of bond dimension 1 or 2, 8..10 sites.
@@ -186,6 +188,10 @@ def run(ctx):
         chain, method, mrule = [("spin", "2site", "rank"), ("spin", "1site", "rank"), ("spin", "2site", "rank"), ("hop", "2site", "full"), ("spin", "1site", "rank"), ("hop", "2site", "rank")][k % 6]
         vspecs.append({"hard": 1, "seed": ctx.rng.randrange(1, 2 ** 31), "chain": chain, "method": method, "mrule": mrule,
                        "nsite": 8 if quick else ctx.rng.choice([8, 9, 10]), "guess_m": 1 + (k // 6) % 2, "nsweep": 30})
+        if chain == "spin" and k % 3 != 0:
+            # scaled hard cases: state multiplied by 1e-6 .. 1e6, default and tight vrtol; result and homogeneity relative
+            vspecs[-1]["scale"] = ctx.rng.choice([1e-6, 1e-3, 1e3, 1e6, 1e6])
+            vspecs[-1]["vrtol"] = ctx.rng.choice([1e-5, 1e-10])
     vsh = [[] for _ in range(4 if quick else 12)]
     for i, sp in enumerate(vspecs):
         vsh[i % len(vsh)].append([i, sp])
@@ -411,13 +417,15 @@ def run(ctx):
             "compressed_sum_checks": stats.get("compressed_sum_checks", 0), "max_compressed_sum_relerr": stats.get("max_compressed_sum_err"),
             "scale_stream (norm 1e-30..1e30 in tensors or prefactor; relative dense, Schmidt ranks, homogeneity)": {
                 "scaled_objects": stats.get("scale_objects", 0), "checks": stats.get("scale_checks", 0), "max_relerr": stats.get("max_scale_relerr")},
+            "fault_stream (dump_matrix_size=1, numpy.save failing from the k-th call; canonicalise, lossless compress, canonicalise)": {
+                "runs": stats.get("fault_runs", 0), "save_calls": stats.get("fault_saves_attempted", 0), "max_relerr": stats.get("max_fault_relerr")},
             "malformed_entry_calls": stats.get("malformed", 0), "oracle_ops": stats.get("ops", 0), "isometry_site_checks": stats.get("iso_sites", 0),
             "max_dense_relerr": stats.get("max_dense_err"), "max_isometry_dev": stats.get("max_iso_dev"),
             "max_scaled_isometry_dev_mpo": stats.get("max_iso_dev_scaled"),
             "mpo_after_compress_max_scaled_isometry_dev (not demanded)": stats.get("mpo_compress_max_scaled_iso_dev"),
-            "variational_hard_cases_demanded": len(vhard_dem), "variational_hard_max_relerr": max([c["res"]["err"] for c in vhard_dem] or [0.0]),
+            "variational_hard_cases_demanded": len(vhard_dem), "variational_hard_cases_scaled (1e-6..1e6, result and homogeneity)": sum(1 for c in vhard_dem if c["spec"].get("scale")), "variational_hard_max_relerr": max([c["res"]["err"] for c in vhard_dem] or [0.0]),
             "variational_hard_hopping_chain_explicit_guess (measured only)": {"cases": len(vhard_meas), "not_converged_or_raised": sum(1 for c in vhard_meas if c["res"]["err"] > 1e-6)},
-            "variational_cases": len(vcases), "variational_max_relerr": max([max(c["res"]["2site"], c["res"]["1site"]) for c in vcases] or [0.0]),
+            "variational_cases": len(vcases), "variational_cases_with_failing_spill": sum(1 for c in vcases if c["spec"].get("fault") is not None), "variational_max_relerr": max([max(c["res"]["2site"], c["res"]["1site"]) for c in vcases] or [0.0]),
             "by_kind_recipe_length": hist}
     ctx.notes.append("interpretation: Mpo sites are isometries up to a per-site weight after canonicalise; Mpo compress keeps u*sigma (not canonical) -- measured deviation %s" % stats.get("mpo_compress_max_scaled_iso_dev"))
     return {"evaluations": n_sched + n_iter + n_lab + stats.get("svd_qn_calls", 0) + len(vcases) + len(vhard),
